@@ -958,8 +958,8 @@ func main() {
 
 	// cross-check: every interface used by a field is a class of ClassConstructorsMap
 	rounds := c.N(1, 50)
-	coqValues := c.N(260, 2500)
-	coqMutants := c.N(160, 1500)
+	coqValues := c.N(170, 2500)
+	coqMutants := c.N(110, 1500)
 	total := 0
 	for _, reg := range h.regs {
 		total += len(reg.ids)
